@@ -55,6 +55,23 @@ class Flat:
 
 
 @dataclass
+class FlatTwin:
+    """Same fields as Flat: a loader / dumper of the wrong one of the two goes unnoticed unless the result's class is compared."""
+    a: int
+    b: List[str]
+    c: Dict[str, int] = field(default_factory=dict)
+
+
+@dataclass
+class Weighted:
+    w: int
+    edges: List[typing.Tuple["Weighted", int]] = field(default_factory=list)
+
+
+WEIGHTED_DATA = {"w": 1, "edges": [[{"w": 2, "edges": [[{"w": 3}, 30]]}, 20], [{"w": 4}, 40]]}
+
+
+@dataclass
 class FlatDst:
     a: int
     b: List[str]
@@ -86,6 +103,38 @@ def op_dump(tp, obj):
     return body
 
 
+def op_fload(tp, data):
+    """Through the facade method (retort.load), not through an obtained loader: the facade's own bookkeeping is part of the race."""
+    def body(retort):
+        return (lambda d: retort.load(d, tp)), retort.load(data, tp)
+    body.probe = lambda fn: fn(data)
+    body.desc = f"retort.load:{tp!r}"
+    return body
+
+
+def op_fdump(tp, obj):
+    def body(retort):
+        return (lambda o: retort.dump(o, tp)), retort.dump(obj, tp)
+    body.probe = lambda fn: fn(obj)
+    body.desc = f"retort.dump:{tp!r}"
+    return body
+
+
+class Bundle:
+    """A shared retort and a second retort that has the shared one in its recipe (a retort acting as a provider)."""
+
+    def __init__(self):
+        self.shared = Retort()
+        self.outer = Retort(recipe=[self.shared])
+
+
+def on(which, op):
+    def body(bundle):
+        return op(getattr(bundle, which))
+    body.probe, body.desc = op.probe, f"{which}.{op.desc}"
+    return body
+
+
 def op_convert(src, dst, obj):
     def body(retort):
         c = retort.get_converter(src, dst)
@@ -106,6 +155,13 @@ SCENARIOS = {
     "dumper-same-recursive": (Retort, [op_dump(Node, NODE_OBJ), op_dump(Optional[Node], NODE_OBJ)]),
     "converter": (ConversionRetort, [op_convert(Flat, FlatDst, Flat(1, ["x"])), op_convert(Flat, FlatDst, Flat(2, ["y"]))]),
     "three-threads": (Retort, [op_load(Node, NODE_DATA), op_load(List[Node], [NODE_DATA]), op_load(Optional[Node], NODE_DATA)]),
+    # the facade methods themselves, two different types whose data look alike
+    "facade-load-different-types": (Retort, [op_fload(Flat, FLAT_DATA), op_fload(FlatTwin, FLAT_DATA)]),
+    "facade-dump-different-types": (Retort, [op_fdump(Flat, Flat(1, ["x"], {"k": 1})), op_fdump(Node, NODE_OBJ)]),
+    "facade-load-recursive-vs-flat": (Retort, [op_fload(Node, NODE_DATA), op_fload(Flat, FLAT_DATA)]),
+    # a retort used directly by one thread and as a provider inside another retort by the other
+    "retort-in-recipe": (Bundle, [on("shared", op_load(Weighted, WEIGHTED_DATA)), on("outer", op_load(Weighted, WEIGHTED_DATA))]),
+    "retort-in-recipe-node": (Bundle, [on("outer", op_load(Node, NODE_DATA)), on("shared", op_load(List[Node], [NODE_DATA]))]),
 }
 QUICK_SWEEP = ("self-recursive-same", "mutual-recursive-different-ends")
 
@@ -242,7 +298,11 @@ def run_exhaustive(ctx):
             for x in (0, 1):
                 n = lens[x][x]
                 stride = max(1, n // 40)
-                for k in range((ctx.shard * 7 + ctx.seed) % stride, n, stride * ctx.nshards // 2 or 1):
+                points = set(range((ctx.shard * 7 + ctx.seed) % stride, n, stride * ctx.nshards // 2 or 1))
+                # the first and the last statements of a request are where the facade does its own bookkeeping: every point there
+                edge = [k for k in list(range(min(n, 24))) + list(range(max(0, n - 24), n))]
+                points |= {k for j, k in enumerate(edge) if j % ctx.nshards == ctx.shard}
+                for k in sorted(points):
                     run_schedule(ctx, name, S.single_preemption(x, k, 1 - x), "single-preemption-stride", start=x, params=(x, k))
 
 
